@@ -208,6 +208,75 @@ var c03FixedData = run.Node{T: "object", K: []string{"foo", "a", "b", "s", "n", 
 	{T: "string", S: "subject string"}, {T: "string", S: "é\xffa"}, {T: "int64", S: "9223372036854775807"},
 	{T: "object", K: []string{"p", "q"}, A: []run.Node{{T: "decimal", S: "NaN"}, {T: "foreign:struct"}}}, {T: "nilslice"}}}
 
+// C03 (a'): two occurrences of the same hostile or foreign value combined by
+// every binary construct (comparisons of a value with itself or an equal one
+// reach code paths that mixed operands never do).
+func TestC03_Pairs(t *testing.T) {
+	c := collector("C03", "pairs")
+	rapid.Check(t, func(t *rapid.T) {
+		pickLeaf := func(label string) run.Node {
+			if rapid.IntRange(0, 2).Draw(t, label+"-foreign") == 0 {
+				return run.Node{T: gen.Pick(t, label, run.ForeignKinds)}
+			}
+			return gen.Pick(t, label, hostileLeaves)
+		}
+		p := pickLeaf("p")
+		q := p
+		if rapid.IntRange(0, 3).Draw(t, "different") == 0 {
+			q = pickLeaf("q")
+		}
+		wrap := func(n run.Node, label string) run.Node {
+			switch rapid.IntRange(0, 4).Draw(t, label) {
+			case 0:
+				return run.Node{T: "array", A: []run.Node{n}}
+			case 1:
+				return run.Node{T: "object", K: []string{"k"}, A: []run.Node{n}}
+			case 2:
+				return run.Node{T: "array", A: []run.Node{{T: "json.Number", S: "1"}, n, n}}
+			}
+			return n
+		}
+		w := rapid.IntRange(0, 4).Draw(t, "wrapkind")
+		_ = w
+		pn, qn := wrap(p, "wrap"), q
+		if rapid.Bool().Draw(t, "samewrap") {
+			qn = pn
+			if q.T != p.T || q.S != p.S {
+				qn = wrap(q, "wrapq")
+			}
+		}
+		node := run.Node{T: "object", K: []string{"p", "q", "l"}, A: []run.Node{pn, qn, {T: "array", A: []run.Node{pn, qn, {T: "null"}}}}}
+		P, Q, L := ast.F("p"), ast.F("q"), ast.F("l")
+		ml := func(es ...ast.Expr) ast.Expr { return &ast.Chain{Head: ast.Head{Kind: ast.HMultiList, Items: es}} }
+		forms := []ast.Expr{
+			ast.Bin("==", P, Q), ast.Bin("!=", P, Q), ast.Bin("==", P, P), ast.Bin("<", P, Q), ast.Bin(">=", P, P),
+			ast.Bin("==", ml(P), ml(Q)), ast.Bin("==", L, L), ast.Call("contains", ast.A(L), ast.A(P)), ast.Call("contains", ast.A(ml(P, Q)), ast.A(Q)),
+			L.With(ast.Step{Kind: ast.SFilter, Cond: ast.Bin("==", ast.Cur(), &ast.Chain{Head: ast.Head{Kind: ast.HRoot}, Steps: []ast.Step{{Kind: ast.SField, Name: "p"}}})}),
+			ast.Call("sort", ast.A(ml(P, Q))), ast.Call("max", ast.A(ml(P, Q))), ast.Call("min", ast.A(L)), ast.Call("sort_by", ast.A(L), ast.Ref(ast.Cur())), ast.Call("max_by", ast.A(L), ast.Ref(ast.Cur())),
+			ast.Call("group_by", ast.A(L), ast.Ref(ast.Cur())), ast.Call("sum", ast.A(ml(P, Q))), ast.Call("avg", ast.A(L)),
+			ast.Bin("+", P, Q), ast.Bin("-", P, P), ast.Bin("*", P, Q), ast.Bin("/", P, Q), ast.Bin("//", P, Q), ast.Bin("%", P, Q), &ast.Unary{Op: "-", X: P}, &ast.Unary{Op: "+", X: P},
+			ast.Bin("&&", P, Q), ast.Bin("||", P, Q), &ast.Unary{Op: "!", X: P}, ast.Call("not_null", ast.A(P), ast.A(Q)), ast.Call("type", ast.A(P)), ast.Call("to_string", ast.A(L)),
+			ast.Call("to_number", ast.A(P)), ast.Call("to_array", ast.A(P)), ast.Call("length", ast.A(P)), ast.Call("reverse", ast.A(P)), ast.Call("abs", ast.A(P)), ast.Call("ceil", ast.A(P)), ast.Call("floor", ast.A(P)),
+			ast.Call("join", ast.A(P), ast.A(L)), ast.Call("merge", ast.A(P), ast.A(Q)), ast.Call("zip", ast.A(P), ast.A(Q)), ast.Call("keys", ast.A(P)), ast.Call("values", ast.A(P)), ast.Call("items", ast.A(P)),
+			ast.Call("from_items", ast.A(ml(ml(P, Q)))), ast.Call("starts_with", ast.A(P), ast.A(Q)), ast.Call("find_first", ast.A(ast.RawS("abc")), ast.A(ast.RawS("b")), ast.A(P), ast.A(Q)),
+			ast.Call("split", ast.A(ast.RawS("a,b")), ast.A(ast.RawS(",")), ast.A(P)), ast.Call("replace", ast.A(ast.RawS("aa")), ast.A(ast.RawS("a")), ast.A(ast.RawS("b")), ast.A(P)),
+			ast.Call("map", ast.Ref(ast.Bin("==", ast.Cur(), P)), ast.A(L)), P.With(ast.Step{Kind: ast.SStar}), P.With(ast.Step{Kind: ast.SListStar}), P.With(ast.Step{Kind: ast.SFlatten}), P.With(ast.Step{Kind: ast.SSlice, Start: ast.I64(0)}),
+			P.With(ast.Step{Kind: ast.SIndex, Index: 0}), P.With(ast.Step{Kind: ast.SField, Name: "k"}), &ast.Let{Names: []string{"v"}, Vals: []ast.Expr{P}, Body: ast.Bin("==", ast.Var("v"), Q)},
+		}
+		e := forms[rapid.IntRange(0, len(forms)-1).Draw(t, "form")]
+		text := ast.Render(e)
+		c.Case()
+		call := run.Call{API: "search", Expr: text, Doc: &node}
+		run.Watch(c, "pairs", call)
+		if msg := noPanic(text, node.Build); msg != "" {
+			c.Fail(t, run.Replay{Check: "pairs", Kind: "nopanic", Calls: []run.Call{call, {API: "expr-search", Expr: text, Doc: &node}}, Message: msg}, ast.Shape(e)+p.T)
+			return
+		}
+		c.Label("ok")
+		c.NonTrivial(text+"\x00"+node.Text()+p.T+p.S+q.T+q.S, func() any { return map[string]any{"expr": text, "p": p.T + ":" + p.S, "q": q.T + ":" + q.S, "data": truncate(node.Text(), 200)} })
+	})
+}
+
 // C03 (b): arbitrary bytes and mutated corpus expressions.
 func TestC03_Bytes(t *testing.T) {
 	c := collector("C03", "bytes")
